@@ -64,6 +64,9 @@ type sim struct {
 	// what the generator did that is suspected to break conservation (violation kinds)
 	suspects map[string]bool
 	ctx      context.Context
+	// magnet mode: the metadata is not known yet
+	metaKnown bool
+	info      []byte
 }
 
 func (s *sim) nchunks() int      { return int((s.length + CS - 1) / CS) }
@@ -119,23 +122,40 @@ func (s *sim) reset() {
 	perPeer = map[*peer.Peer]*answers{}
 }
 
-func (s *sim) doInit(ps uint32, length int64, tcap int) string {
+func (s *sim) doInit(ps uint32, length int64, tcap int, magnet bool) string {
 	s.reset()
 	if ps == 0 || ps%CS != 0 || length <= 0 {
 		return "bad-geom"
 	}
 	mi, content, hashes := metainfo(ps, length)
-	t, err := tor.ReadTorrent("", bytes.NewReader(mi))
+	var t *tor.Torrent
+	var err error
+	s.info = mi[len("d4:info") : len(mi)-1]
+	if magnet {
+		// a magnet link: only the info-hash is known; the metadata arrives later through
+		// the real TorMetaData handler (op `metac`)
+		h := sha1.Sum(s.info)
+		t, err = tor.New("", hash.Hash(h[:]), "t", nil, 0, nil, nil)
+	} else {
+		t, err = tor.ReadTorrent("", bytes.NewReader(mi))
+	}
 	if err != nil {
 		return "bad-geom"
 	}
 	s.t, s.ps, s.length, s.tcap, s.content, s.hashes = t, ps, length, tcap, content, hashes
+	s.metaKnown = !magnet
 	tor.VerifInit(t, tcap, 1)
 	t.Log.SetOutput(&s.logbuf)
-	// no hash goroutine in this mode: `fin` runs Pieces.Finalise synchronously instead
-	t.VerifSetPieceHashes(nil)
 	t.VerifSetUseWebseeds(true)
 	t.VerifSetWebseeds([]webseed.Webseed{stubSeed{}})
+	if magnet {
+		if tor.VerifMetadataVote(t, uint32(len(s.info))) != nil || tor.VerifResizeMetadata(t, uint32(len(s.info))) != nil {
+			return "bad-geom"
+		}
+	} else {
+		// no hash goroutine in this mode: `fin` runs Pieces.Finalise synchronously instead
+		t.VerifSetPieceHashes(nil)
+	}
 	return "init"
 }
 
@@ -295,7 +315,7 @@ func (s *sim) stateStr() string {
 		avs = strings.Join(as, ",")
 	}
 	var pcs []string
-	for i := 0; i < s.npieces(); i++ {
+	for i := 0; s.metaKnown && i < s.npieces(); i++ {
 		n, bm := s.t.Pieces.PieceBitmap(uint32(i))
 		var pb strings.Builder
 		for k := 0; k < n; k++ {
@@ -310,20 +330,18 @@ func (s *sim) stateStr() string {
 		}
 		pcs = append(pcs, pb.String())
 	}
-	fmt.Fprintf(&b, "if=%s av=%s te=%d fl=%s%s%s pc=%s | ", strings.Join(ss, ","), avs, len(s.t.Event),
+	ifs := "-"
+	if s.metaKnown && len(ss) > 0 {
+		ifs = strings.Join(ss, ",")
+	}
+	fmt.Fprintf(&b, "if=%s av=%s te=%d fl=%s%s%s pc=%s | ", ifs, avs, len(s.t.Event),
 		b01(s.sat), b01(s.under), b01(s.aunder), strings.Join(pcs, " "))
 	var ps []string
 	for i, sp := range s.peers {
 		if sp.alive {
 			st := sp.p.VerifState()
-			var bits strings.Builder
-			for k := 0; k < s.npieces(); k++ {
-				if st.Bitmap.Get(k) {
-					bits.WriteByte('1')
-				} else {
-					bits.WriteByte('0')
-				}
-			}
+			var bl []uint32
+			st.Bitmap.Range(func(k int) bool { bl = append(bl, uint32(k)); return true })
 			q := "-"
 			if len(st.Queue) > 0 {
 				q = joinU32(st.Queue)
@@ -339,8 +357,8 @@ func (s *sim) stateStr() string {
 				}
 				r = strings.Join(rs, ",")
 			}
-			ps = append(ps, fmt.Sprintf("p%d: a=1%s u=%s nil=%s b=%s f=%s q=%s r=%s ev=%d ov=%d w=%d", i, b01(sp.present),
-				b01(st.Unchoked), b01(st.BitmapNil), bits.String(), joinU32(st.Fast), q, r,
+			ps = append(ps, fmt.Sprintf("p%d: a=1%s u=%s i=%s%s nil=%s b=%s f=%s q=%s r=%s ev=%d ov=%d w=%d", i, b01(sp.present),
+				b01(st.Unchoked), b01(st.HasInfo), b01(st.IsSeed), b01(st.BitmapNil), joinU32(bl), joinU32(st.Fast), q, r,
 				len(sp.p.Event), len(sp.p.VerifEvents()), len(sp.p.VerifWriter())))
 		} else {
 			ps = append(ps, fmt.Sprintf("p%d: a=0%s rq=%s ov=%d", i, b01(sp.present), joinU32(s.deadRequests(sp)),
@@ -423,7 +441,7 @@ func (s *sim) exec(line string) (obs string) {
 	if len(f) == 0 {
 		return "bad-op"
 	}
-	if f[0] == "init" {
+	if f[0] == "init" || f[0] == "minit" {
 		if len(f) != 4 {
 			return "bad-op"
 		}
@@ -433,7 +451,7 @@ func (s *sim) exec(line string) (obs string) {
 		if !ok1 || err != nil || !ok3 {
 			return "bad-op"
 		}
-		r := s.doInit(uint32(ps), ln, tc)
+		r := s.doInit(uint32(ps), ln, tc, f[0] == "minit")
 		if r != "init" {
 			return r
 		}
@@ -520,7 +538,11 @@ func (s *sim) execOp(f []string) string {
 			return "bad-op"
 		}
 		wd := make(chan struct{})
-		p := peer.VerifNewPeer(peer.VerifPeerOpts{Fast: f[1] == "1", Pieces: &s.t.Pieces, Info: s.t.Info,
+		var info []byte
+		if s.metaKnown {
+			info = s.t.Info
+		}
+		p := peer.VerifNewPeer(peer.VerifPeerOpts{Fast: f[1] == "1", Pieces: &s.t.Pieces, Info: info,
 			WriterCap: wc, TorEvent: s.t.Event, TorDone: s.t.Done, WriterDone: wd,
 			Hash: s.t.Hash, Id: hash.Hash(make([]byte, 20))})
 		p.VerifSetEventCap(ev)
@@ -539,7 +561,7 @@ func (s *sim) execOp(f []string) string {
 		if !ok || !ok2 || (f[3] != "0" && f[3] != "1") {
 			return "bad-op"
 		}
-		if !sp.present {
+		if !sp.present || !s.metaKnown {
 			return "bad-op"
 		}
 		for _, c := range cs {
@@ -764,7 +786,7 @@ func (s *sim) execOp(f []string) string {
 			return "bad-op"
 		}
 		idx, ok := atoi(f[1])
-		if !ok || idx >= s.npieces() {
+		if !ok || idx >= s.npieces() || !s.metaKnown {
 			return "bad-op"
 		}
 		before := s.t.VerifInFlight()
@@ -840,12 +862,45 @@ func (s *sim) execOp(f []string) string {
 		w.w.Close()
 		w.open = false
 		return "ok"
+	case "metac":
+		// the TorMetaData that completes the metadata, through the real handler: gotMetadata
+		// verifies the hash, MetadataComplete builds the geometry, writePeers sends
+		// PeerMetadataComplete to every peer, periodicRequest is called (idle rate 0)
+		if len(f) != 1 || s.metaKnown {
+			return "bad-op"
+		}
+		for _, sp := range s.peers {
+			if sp.alive && sp.present && len(sp.p.Event) >= sp.evcap {
+				return "block"
+			}
+		}
+		var from *peer.Peer
+		if len(s.peers) > 0 {
+			from = s.peers[0].p
+		} else {
+			from = peer.VerifNewPeer(peer.VerifPeerOpts{Pieces: &s.t.Pieces, WriterCap: 1, TorEvent: s.t.Event,
+				TorDone: s.t.Done, WriterDone: make(chan struct{}), Hash: s.t.Hash, Id: hash.Hash(make([]byte, 20))})
+		}
+		restore := s.blockDead(nil)
+		err := tor.VerifHandleEvent(s.ctx, s.t, peer.TorMetaData{Peer: from, Size: uint32(len(s.info)), Index: 0,
+			Data: append([]byte(nil), s.info...)})
+		restore()
+		if err != nil {
+			return "err"
+		}
+		st := s.t.VerifInfoState()
+		if !st.InfoComplete {
+			return "metadata-not-complete"
+		}
+		s.t.VerifSetPieceHashes(nil)
+		s.metaKnown = true
+		return "ok"
 	case "fin":
 		if len(f) != 2 {
 			return "bad-op"
 		}
 		idx, ok := atoi(f[1])
-		if !ok || idx >= s.npieces() {
+		if !ok || idx >= s.npieces() || !s.metaKnown {
 			return "bad-op"
 		}
 		done, _, err := s.t.Pieces.Finalise(uint32(idx), s.hashes[idx])
@@ -1009,7 +1064,11 @@ func (s *sim) execMsg(f []string) string {
 		tag = nilTag("bitfield")
 	case "haveall":
 		m = protocol.HaveAll{}
-		tag = nilTag("haveall")
+		if st.HasInfo {
+			tag = nilTag("haveall")
+		} else {
+			tag = nilTag("haveall-nometa")
+		}
 	case "havenone":
 		m = protocol.HaveNone{}
 		tag = nilTag("havenone")
@@ -1058,11 +1117,12 @@ func (s *sim) execMsg(f []string) string {
 func main() {
 	c := vhlib.Init("c09")
 	c.Rep.Rule = "a case is a history (op lines from `init` to the final all-zero check); nontrivial = it reached a quiescent point with a non-zero counter"
+	config.SetIdleRate(0) // periodicRequest (called by the TorMetaData handler) must not start idle downloads
 	s := &sim{c: c, ctx: context.Background(), suspects: map[string]bool{}}
 	if c.Replay != "" {
 		c.NewCase()
 		for _, l := range c.ReplayLines() {
-			if strings.HasPrefix(l, "init ") {
+			if strings.HasPrefix(l, "init ") || strings.HasPrefix(l, "minit ") {
 				s.endOfCase()
 				c.NewCase()
 			}
